@@ -8,7 +8,7 @@ CONSTANTS
   Execs = {"st"}
   MaxClears = 1
   MaxEvals = 2
-  MaxEdges = 4
+  MaxEdges = 3
   MaxMarks = 0
   PropAllowed = TRUE
   SetAllAllowed = TRUE
